@@ -171,3 +171,11 @@ func vGuardMap(m any, mutex any) {}
 // vShareGlobals marks every package-level variable (and what it reaches) as shared state that the code under
 // test must not write outside locks / atomics (effect monitor); natively a no-op.
 func vShareGlobals() {}
+
+// vPin fixes the value of a named input (concrete instances of the generators, e.g. the corpus batches).
+func vPin(name string, v uint64) {
+	if vState.inputs == nil {
+		vState.inputs = map[string]uint64{}
+	}
+	vState.inputs[name] = v
+}
